@@ -516,6 +516,8 @@ Proof.
   unfold deferred_lost_segment_handling.
   apply (pres_bind _ NI _); [pw | apply NI_inv | intros active].
   destruct (negb active); [apply (pres_post _ NI); [apply NI_inv | pw]|].
+  apply (pres_bind _ NI _); [pw | apply NI_inv | intros disp].
+  destruct (disp =? DISP_CANCELED); [apply (pres_post _ NI); [apply NI_inv | pw]|].
   apply (pres_bind _ NI _); [pw | apply NI_inv | intros r].
   apply (pres_bind _ NI _); [pw | apply NI_inv | intros eof].
   destruct eof as [eos|]; [|apply (pres_post _ NI); [apply NI_inv | pw]].
